@@ -50,6 +50,10 @@ VarDefAlpha == {"[", "]", "Name", "!", ")", "(", "{", "}", "=", "Int", "$", ":"}
 NoSeq == <<>>
 PfxVarDef == <<"query", "(", "$", "Name", ":">>
 PfxFieldDef == <<"type", "Name", "{", "Name", ":">>
+\* argument and input-field definitions, with descriptions and default values
+PfxArgDef == <<"type", "Name", "{", "Name", "(">>
+PfxInputDef == <<"input", "Name", "{">>
+ArgDefAlpha == {"String", "BlockString", "Name", ":", ")", "}", "=", "Int", "@"}
 
 \* wrapper texts
 PreIgn == <<"{", " ", "a", " ">>            PostIgn == <<" ", "b", "c", " ", "}">>
@@ -70,14 +74,15 @@ AlphaDocTiny == {"BOM", " ", "LF", "#", "U2", "x"}
 AlphaStrTiny == {"DQ", "BS", "n", "u", "x", "U2", "LF"}
 AlphaStrSmall9 == {"DQ", "BS", "n", "u", "x", "0", "U2", "BEL", "LF"}
 AlphaHexTiny == {"0", "a", "f", "F", "x", "DQ", "U2"}
-AlphaBlkTiny == {" ", "LF", "a", "DQ", "BS", "U2"}
+\* U3 is U+2028: multi-byte AND a Unicode space that is not GraphQL WhiteSpace
+AlphaBlkTiny == {" ", "LF", "a", "DQ", "BS", "U3"}
 AlphaNumTiny == {"-", "0", "1", ".", "e", "+", "a", ")"}
 AlphaNum10 == {"-", "0", "1", ".", "e", "E", "+", "a", " ", ")"}
 AlphaHexSmall == {"0", "a", "F", "x", "Z", "DQ", "U2", " "}
 AlphaNumSmall == {"-", "0", "1", ".", "e", "+", "a", " ", ")"}
 AlphaHex == {"0", "1", "a", "f", "A", "F", "x", "Z", "DQ", "U2", " "}
 AlphaBlk == {" ", "TAB", "LF", "CR", "a", "DQ", "BS", "U2", "BEL", "U4"}
-AlphaBlkSmall == {" ", "LF", "CR", "a", "DQ", "BS", "U2"}
+AlphaBlkSmall == {" ", "LF", "CR", "a", "DQ", "BS", "U3"}
 AlphaNum == {"-", "0", "1", "2", ".", "e", "E", "+", "a", "_", " ", ")"}
 AlphaDoc == {"BOM", " ", "LF", "#", "U2", "x", "{", "DQ"}
 
@@ -96,9 +101,11 @@ ChrFam(name, pre, post, alpha, max) == Fam(name, "chr", alpha, max, <<>>, pre, p
 \* (TLC needs ~0.3 ms CPU per token string and 2-5 ms per character string)
 FamsTokQuick == << TokFam("exec", ExecSmall, 5, <<>>), TokFam("typesys", TypeSysSmall, 4, <<>>),
                    TokFam("vardef", VarDefAlpha, 9, PfxVarDef), TokFam("fielddef", VarDefAlpha, 9, PfxFieldDef),
+                   TokFam("argdef", ArgDefAlpha, 13, PfxArgDef), TokFam("inputdef", ArgDefAlpha, 9, PfxInputDef),
                    KwFrag, KwDir, KwInl, KwImpl, KwImpl2 >>
 FamsTokThorough == << TokFam("exec", ExecFull, 6, <<>>), TokFam("exec7", ExecSmall, 7, <<>>), TokFam("typesys", TypeSys, 5, <<>>),
                       TokFam("vardef", VarDefAlpha, 12, PfxVarDef), TokFam("fielddef", VarDefAlpha, 11, PfxFieldDef),
+                      TokFam("argdef", ArgDefAlpha, 14, PfxArgDef), TokFam("inputdef", ArgDefAlpha, 11, PfxInputDef),
                       KwFrag, KwDir, KwInl, KwImpl, KwImpl2 >>
 FamsChrQuick == << ChrFam("ign", PreIgn, PostIgn, AlphaIgnTiny, 4), ChrFam("doc", PreDoc, PostDoc, AlphaDocTiny, 4),
                    ChrFam("str", PreStr, PostStr, AlphaStrTiny, 4), ChrFam("stru", PreStrU, PostStr, AlphaHexTiny, 4),
